@@ -18,7 +18,7 @@ TOKEN_RE = re.compile(r"""
   | (?P<bc>/\*.*?\*/)
   | (?P<str>"(?:\\.|[^"\\])*")
   | (?P<hex>0x[0-9a-fA-F_]+(?:u32|u64|usize)?)
-  | (?P<num>\d[\d_]*(?:\.\d[\d_]*)?(?:[eE][-+]?\d+)?(?:_?(?:f64|f32|usize|u64|u32|i32|i64|u16|i16|u8))?)
+  | (?P<num>\d[\d_]*(?:\.\d[\d_]*)?(?:[eE][-+]?\d+)?(?:_?(?:f64|f32|usize|isize|u64|u32|i32|i64|u16|i16|u8))?)
   | (?P<chr>'(?:\\.|\\u\{[0-9a-fA-F]+\}|[^'\\])')
   | (?P<life>'[a-zA-Z_]\w*)
   | (?P<id>[A-Za-z_]\w*)
@@ -158,6 +158,8 @@ def parse_unary(p, nostruct):
                 if not p.eat(","):
                     break
             p.expect("|")
+        if p.at("{"):
+            return ("closure", params, ("block", parse_block(p)))
         return ("closure", params, parse_expr(p, 0, nostruct))
     if p.eat("-"):
         return ("neg", parse_unary(p, nostruct))
@@ -396,6 +398,9 @@ def parse_stmt(p):
             it = ("range", it, hi, incl)
         body = parse_block(p)
         return ("for", var, it, body)
+    if k == "id" and v in ("break", "continue") and p.at(";", 1):
+        p.next(); p.next()
+        return (v,)
     if k == "id" and v == "while":
         p.next()
         c = parse_expr(p, nostruct=True)
